@@ -17,6 +17,7 @@ EXPLANATION = (
     "side condition). R05.4 no other panic edge (diverging call, unwrap/expect/slice indexing, unproved bounds check) in "
     "that code. Decides the wiring and the guards, not the arithmetic."
     ' R05.6 path summaries of the helpers: slice_middle returns the slice itself when empty, the window [len/2 - 1 ..][.. 2] when len is even and [len/2 ..][.. 1] when odd (any spelling of the sub-slicing); total_duration is the sum of duration.picos over all time_samples. R05.7 the total iteration count is formed with both factors widened to 64 bits before the product. R05.5 statistics formatting guards. R05.8 of_iter counts by iterating, never from size_hint/len. R05.9 (= R15.6) per-sample counter values stay index-aligned with the samples: installing an input counter empties its own kind\'s list unconditionally and touches no other kind. R05.10 the per-iteration count of an input counter is narrow(total / widen(sample_size)): the division happens in the width of the sum, before the narrowing cast. R05.11 per-kind counter bookkeeping addresses its own kind: info/info_mut index by their kind argument; counts/uses_input_counts/mean_count/get_input_count look up the kind they were given; push_counter stores the pushed counter\'s own count under that counter\'s kind; mean_count is sum over len of the same list. R05.12 no divisor in compute_stats (closures and helpers included, captures followed) is the length of a list that was filtered, de-duplicated or truncated after collection: means divide by the number of samples.')
+EXPLANATION += (' R05.13 a sample keeps its allocation snapshot unless all tallies are zero: AllocOpMap::is_empty is all(count == 0 && size == 0) over the whole array.')
 NOT_DECIDED = ["numerical exactness of the integer picosecond arithmetic and f64 rounding", "fastest <= median <= slowest as values",
                "arithmetic overflow checks of the dev profile other than the iteration-count product (R05.7)",
                "NaN-freedom of f64 paths other than division by a possibly-zero divisor"]
